@@ -126,6 +126,26 @@ theorem wrong_secret_absent (L : Lib) (hb : B64Contract L) (name : Str) (value :
   refine ⟨_, setCookie_signed L hb name value key hn hk hlen, ?_⟩
   rw [getCookie_of_signed L hb name value key secret hn hs ht, cookieDecode_other_key L hb _ key secret hmac]
 
+/-- a genuinely signed cookie presented under **another name** (replay of a valid cookie of the
+same application) reads as absent: `get_cookie` compares the name embedded in the signed payload.
+(The MAC verifies, so the payload the server itself signed is unpickled — once.) -/
+theorem replay_under_other_name_absent (L : Lib) (hb : B64Contract L) (hdr name other : Str) (value : CVal)
+    (secret : Bytes) (items : List (Str × Str)) (hs : secret ≠ []) (hne : name ≠ other)
+    (hp : PickleAt L (name, value)) (hload : L.load hdr = .ok items)
+    (hget : dictGet items other = some (latin1Dec (cookieEncode L (name, value) secret))) :
+    getCookie L hdr other secret = (.ok none, [L.pickle (name, value)]) := by
+  unfold getCookie
+  rw [hload]
+  simp only [hget]
+  have hse : secret.isEmpty = false := by simpa using hs
+  have hnv : (latin1Dec (cookieEncode L (name, value) secret)).isEmpty = false := by
+    rw [encode_text]; rfl
+  simp only [hse, hnv, Bool.not_false, Bool.and_self, if_true]
+  rw [utf8Enc_latin1Dec_ascii _ (encode_ascii L hb (name, value) secret),
+    cookieDecode_genuine L hb (name, value) hp secret]
+  have : (name == other) = false := by simpa using hne
+  simp [this]
+
 /-- **signed_roundtrip**: under the library contracts, a signed cookie set on a response and
 returned by the client is read back as the very value, and the unpickler is called exactly once,
 with the genuine payload. -/
@@ -216,6 +236,10 @@ example : ¬ MacOk exLib exKey [65, 63, 66] := by rintro ⟨msg, h⟩; cases h
 /-- `tamper_absent` (request level): a header whose cookie lost its last character -/
 example : getCookie exLib ("sid=\"!Hsf0NE3yohm5B06oF4y7cg==?gAVLAS4\"".toList) "sid".toList exKey = (.ok none, []) := by
   decide +kernel
+
+/-- `replay_under_other_name_absent`: the cookie of `sid` presented as `uid` -/
+example : getCookie exLib ("uid=\"!Hsf0NE3yohm5B06oF4y7cg==?gAVLAS4=\"".toList) "uid".toList exKey =
+    (.ok none, [[128, 5, 75, 1, 46]]) := by decide +kernel
 
 /-- `plain_roundtrip`: hypotheses met by a value with separators, quotes and Latin-1 text -/
 example : LegalName "n".toList ∧ (∀ c ∈ "a;b \"é\\073".toList, c.toNat < 256) ∧ TokAt exLib "n".toList "a;b \"é\\073".toList := by
